@@ -8,6 +8,7 @@ import (
 	"encoding/json"
 	"fmt"
 	"reflect"
+	"sort"
 	"strconv"
 	"strings"
 	"testing"
@@ -60,8 +61,9 @@ type Scenario struct {
 	Decorate  bool     `json:"decorate,omitempty"`
 	Junk      int      `json:"junk,omitempty"` // datagrams the server must drop or refuse (QR set, unsupported opcode, short), sent by a stranger between the exchanges
 	Clients   []Client `json:"clients,omitempty"`
-	UDPSock   bool     `json:"udp_sock,omitempty"` // the datagram server runs on a UDP socket (SessionUDP branch with control messages) where the build has that seam, not on a generic PacketConn
-	Homes     int      `json:"homes,omitempty"`    // with UDPSock: the server host has this many addresses (two IPv4, one IPv6)
+	UDPSock   bool     `json:"udp_sock,omitempty"`   // the datagram server runs on a UDP socket (SessionUDP branch with control messages) where the build has that seam, not on a generic PacketConn
+	PostYield bool     `json:"post_yield,omitempty"` // the return of every transport operation is a scheduling point of its own
+	Homes     int      `json:"homes,omitempty"`      // with UDPSock: the server host has this many addresses (two IPv4, one IPv6)
 
 	// framing
 	Sizes     []int `json:"sizes,omitempty"`  // message sizes written on one stream
@@ -148,6 +150,7 @@ func Gen(seed uint64, tier string) any {
 		sc.UDPSock = true
 		sc.Homes = core.Pick(r, 1, 2, 3, 3)
 	}
+	sc.PostYield = core.Chance(r, 35)
 	maxc, maxe := 4, 3
 	if tier == "thorough" {
 		maxc, maxe = 8, 6
@@ -338,10 +341,28 @@ type run struct {
 	cliFin    []bool
 	lifeFin   bool
 	serveRet  int
-	connReply map[string][][]byte // server-side remote address -> packed replies written there, in order
+	doneSeq   int
+	connReply map[string][]*wrec // server-side remote address -> replies handlers handed to the writer there, in order of hand-over
+}
+
+// wrec is one reply a handler handed to its ResponseWriter.
+type wrec struct {
+	b     []byte
+	state int // 0 handed over, call not back yet; 1 written; 2 refused
+	done  int // position among the writes that came back, in the order they came back
 }
 
 // --- handler
+
+//go:norace
+func (x *run) handOver(w dns.ResponseWriter, b []byte) *wrec {
+	rec := &wrec{b: clone(b)}
+	ra := w.RemoteAddr().String()
+	x.k.Lock()
+	x.connReply[ra] = append(x.connReply[ra], rec)
+	x.k.Unlock()
+	return rec
+}
 
 //go:norace
 func tokenOf(name string) string {
@@ -404,16 +425,30 @@ func (x *run) ServeDNS(w dns.ResponseWriter, r *dns.Msg) {
 	}
 	send := func(m *dns.Msg) {
 		b, perr := m.Pack()
+		wi := -1
+		if perr == nil {
+			// on record before the octets can reach anybody
+			k.Lock()
+			wi = len(ex.written)
+			ex.written = append(ex.written, clone(b))
+			ex.writeOK = append(ex.writeOK, false)
+			ex.writeT = append(ex.writeT, time.Now())
+			k.Unlock()
+		}
+		var rec *wrec
+		if perr == nil {
+			rec = x.handOver(w, b)
+		}
 		err := w.WriteMsg(m)
 		k.Lock()
 		if perr == nil {
-			ex.written = append(ex.written, clone(b))
-			ex.writeOK = append(ex.writeOK, err == nil)
-			ex.writeT = append(ex.writeT, time.Now())
+			ex.writeOK[wi] = err == nil
+			rec.state = 2
 			if err == nil {
-				ra := w.RemoteAddr().String()
-				x.connReply[ra] = append(x.connReply[ra], clone(b))
+				rec.state = 1
 			}
+			x.doneSeq++
+			rec.done = x.doneSeq
 		}
 		k.EffectLocked("h.wrote " + tok + " " + common.ErrStr(err))
 		k.Unlock()
@@ -437,15 +472,22 @@ func (x *run) ServeDNS(w dns.ResponseWriter, r *dns.Msg) {
 		if perr != nil {
 			return
 		}
+		k.Lock()
+		wi := len(ex.written)
+		ex.written = append(ex.written, clone(b))
+		ex.writeOK = append(ex.writeOK, false)
+		ex.writeT = append(ex.writeT, time.Now())
+		k.Unlock()
+		rec := x.handOver(w, b)
 		_, err := w.Write(clone(b))
 		k.Lock()
-		ex.written = append(ex.written, clone(b))
-		ex.writeOK = append(ex.writeOK, err == nil)
-		ex.writeT = append(ex.writeT, time.Now())
+		ex.writeOK[wi] = err == nil
+		rec.state = 2
 		if err == nil {
-			ra := w.RemoteAddr().String()
-			x.connReply[ra] = append(x.connReply[ra], clone(b))
+			rec.state = 1
 		}
+		x.doneSeq++
+		rec.done = x.doneSeq
 		if ex.net == "tcp" && len(b) > 65535 {
 			x.res.Stats["oracle.F1_oversize_refused"]++
 			if err == nil {
@@ -1044,10 +1086,11 @@ func runExchange(sc *Scenario, res *core.Result, verbose bool) {
 	kernel.SetCurrent(k)
 	defer kernel.SetCurrent(nil)
 	n := simnet.New(k)
+	n.PostYield = sc.PostYield
 	d, j := time.Duration(sc.DelayMs)*time.Millisecond, time.Duration(sc.JitterMs)*time.Millisecond
 	n.Stream = simnet.StreamLink{MinDelay: d, Jitter: j, SegMode: sc.SegMode, ShortRead: sc.ShortRead}
 	n.Dgram = simnet.DgramLink{MinDelay: d, Jitter: j, Drop: sc.Drop, Dup: sc.Dup}
-	x := &run{sc: sc, k: k, n: n, res: res, ex: map[string]*exState{}, cliFin: make([]bool, len(sc.Clients)), connReply: map[string][][]byte{}}
+	x := &run{sc: sc, k: k, n: n, res: res, ex: map[string]*exState{}, cliFin: make([]bool, len(sc.Clients)), connReply: map[string][]*wrec{}}
 	x.l = n.Listen()
 	x.homes = 1
 	if sc.UDPSock && common.UDPSeam && sc.Homes > 1 {
@@ -1182,16 +1225,57 @@ func (x *run) judgeRun(outcome string) {
 			continue
 		}
 		if c.Role == "srv" {
-			want := x.connReply[c.RemoteAddr().String()]
-			if len(frames) != len(want) {
-				res.Fail("F1", "frame-count", "server wrote %d frames on connection #%d, handlers wrote %d replies there", len(frames), c.ID, len(want))
+			// every reply whose write came back without error is on the wire, nothing
+			// is there that no handler handed over, and (unless the handlers can lose
+			// the processor around their writes) in the order in which the writes came back
+			var must, may [][]byte
+			var back []*wrec
+			for _, r := range x.connReply[c.RemoteAddr().String()] {
+				switch r.state {
+				case 1:
+					back = append(back, r)
+				case 0:
+					may = append(may, r.b)
+				}
+			}
+			sort.Slice(back, func(i, j int) bool { return back[i].done < back[j].done })
+			for _, r := range back {
+				must, may = append(must, r.b), append(may, r.b)
+			}
+			if len(frames) < len(must) || len(frames) > len(may) {
+				res.Fail("F1", "frame-count", "server wrote %d frames on connection #%d, handlers wrote %d replies there (%d more were handed over without the call having returned)", len(frames), c.ID, len(must), len(may)-len(must))
 				continue
 			}
-			for i := range frames {
-				if string(frames[i]) != string(want[i]) {
-					res.Fail("F1", "frame-content", "frame %d on connection #%d differs from reply %d written there by a handler", i, c.ID, i)
+			if !sc.PostYield && len(may) == len(must) {
+				for i := range frames {
+					if string(frames[i]) != string(must[i]) {
+						res.Fail("F1", "frame-content", "frame %d on connection #%d differs from reply %d written there by a handler", i, c.ID, i)
+						break
+					}
+				}
+				continue
+			}
+			left := map[string]int{}
+			for _, b := range may {
+				left[string(b)]++
+			}
+			for i, f := range frames {
+				if left[string(f)] == 0 {
+					res.Fail("F1", "frame-content", "frame %d on connection #%d is not a reply a handler wrote there", i, c.ID)
 					break
 				}
+				left[string(f)]--
+			}
+			have := map[string]int{}
+			for _, f := range frames {
+				have[string(f)]++
+			}
+			for _, b := range must {
+				if have[string(b)] == 0 {
+					res.Fail("F1", "frame-content", "a reply a handler wrote on connection #%d is not among the frames sent there", c.ID)
+					break
+				}
+				have[string(b)]--
 			}
 		}
 	}
